@@ -26,7 +26,8 @@ fn gen_ranges(n: usize, big: bool) -> Vec<(u64, usize)> {
         let t = &mut s.tape;
         let k = 1 + t.draw(10) as usize;
         let mut out: Vec<(u64, usize)> = Vec::new();
-        let mut cursor = t.draw((n / 4).max(1) as u32) as usize;
+        // (one list in six starts at the very first byte)
+        let mut cursor = if t.chance(1, 6) { 0 } else { t.draw((n / 4).max(1) as u32) as usize };
         for _ in 0..k {
             let max_size = if big && t.chance(1, 3) { 3 << 20 } else { *t.pick(&[16usize, 1, 2, 64, 300, 5000, 70000]) };
             let size = 1 + t.draw(max_size as u32) as usize;
@@ -158,8 +159,21 @@ fn run_local(ctx: &mut Ctx, content: Arc<Vec<u8>>, ranges: Vec<(u64, usize)>, si
     }
     let first_short = ranges.iter().position(|&(o, s)| eof_at.map(|e| o + s as u64 > e).unwrap_or(false));
     let ranges2 = ranges.clone();
+    // a reader that has been used before: its position is wherever the last call left it
+    let warm_up: Option<(u64, usize)> = if gen::chance(1, 3) && !content.is_empty() {
+        let o = gen::draw(content.len() as u32) as u64;
+        Some((o, 1 + gen::draw((content.len() as u64 - o).min(5000) as u32) as usize))
+    } else {
+        None
+    };
+    if warm_up.is_some() {
+        simkit::count("probe:reader-used-before");
+    }
     let r = run_async(async move {
         let mut reader = IoReader::new(file);
+        if let Some((o, s)) = warm_up {
+            let _ = reader.read_at(o, s).await;
+        }
         let mut items = Vec::new();
         if single {
             for &(o, s) in &ranges2 {
